@@ -10,7 +10,7 @@ ASPECTS = ['object-name', 'set-identifier', 'header-id', 'signed-int', 'channel-
            'ident-attribute']
 PATTERNS = ['plain', 'nested', 'exception-at-build', 'exception-at-write', 'decorator', 'generator-abandoned',
             'interleaved-outside-file', 'assign-after-leaving', 'created-outside-assigned-inside', 'nested-decorators',
-            'decorator-inside-with', 'with-inside-decorator']
+            'decorator-inside-with', 'with-inside-decorator', 'retry-inside', 'outside-then-inside', 'twice-outside']
 META = {
     'level': 'exploration',
     'rule': ('one evaluation = one (specification, context pattern) executed inside the high-compatibility context and outside it: '
@@ -20,7 +20,7 @@ META = {
              'global configuration); signature = (sorted aspects breached, context pattern); non-trivial when >= 1 aspect is '
              'breached or the pattern is not plain'),
     'required_obs': {'quick': ['compliant-hc-file-decoded', 'flag-transitions-recorded'] + ['breach-' + a for a in ASPECTS]
-                     + ['pattern-' + p for p in PATTERNS] + ['inside-raised', 'outside-warned']},
+                     + ['pattern-' + p for p in PATTERNS] + ['inside-raised', 'outside-warned', 'repeated-write-compared']},
     'assumptions': ['enumerated values are judged only for the values the generator itself chose from known-standard and '
                     'known-non-standard lists (no copy of the full RP66 units table is trusted)',
                     'renames after construction and set names are outside C17\'s domain'],
@@ -46,6 +46,12 @@ def cases(tier, seed):
         for k in range(3 if tier == 'quick' else 30):
             yield {'stratum': 'patterns', 'index': i, 'kind': 'aspects', 'aspects': [], 'pattern': p}
             i += 1
+    # breaches that are detected when the file is written x one DLISFile written twice
+    for a in ('signed-int', 'channel-in-no-frame', 'channel-in-two-frames', 'non-uniform-index'):
+        for p in ('retry-inside', 'outside-then-inside', 'twice-outside'):
+            for k in range(1 if tier == 'quick' else 10):
+                yield {'stratum': 'repeated-writes', 'index': i, 'kind': 'aspects', 'aspects': [a], 'pattern': p}
+                i += 1
     for k in range(60 if tier == 'quick' else 2000):
         yield {'stratum': 'random', 'index': k, 'kind': 'random'}
 
@@ -382,6 +388,45 @@ def run_case(case):
         with high_compatibility_mode():
             inside = build_and_write(sp)
         expect_flag(before, 'after with')
+    elif pattern in ('retry-inside', 'outside-then-inside', 'twice-outside'):
+        # ONE DLISFile object (built outside the context) written twice: what the second write does in its mode must be what a
+        # freshly built file does in that mode -- a breach refused once is refused again, a warning given once is given again
+        def write_in(bb, inside_):
+            with harness.capture_logs() as logs_:
+                if inside_:
+                    try:
+                        with high_compatibility_mode():
+                            w_ = S.do_write(sp, bb, harness.fresh_path(), harness.scratch_dir())
+                    except Exception as e:  # noqa
+                        w_ = ('exc', type(e).__name__, str(e)[:200])
+                else:
+                    w_ = S.do_write(sp, bb, harness.fresh_path(), harness.scratch_dir())
+            return w_, len([m for lv, nm, m in logs_ if lv == 'WARNING'])
+        modes = {'retry-inside': (True, True), 'outside-then-inside': (False, True), 'twice-outside': (False, False)}[pattern]
+        b1 = S.build(copy.deepcopy(sp))
+        if b1.error is None and all(o[0] == 'ok' for o in b1.outcomes):
+            first_w, first_warn = write_in(b1, modes[0])
+            expect_flag(before, 'after first write')
+            second_w, second_warn = write_in(b1, modes[1])
+            expect_flag(before, 'after second write')
+            fresh_w, fresh_warn = write_in(S.build(copy.deepcopy(sp)), modes[1])
+            bump('repeated-write-compared')
+            lab = f'aspects {aspects or "none"} pattern {pattern}'
+            if (second_w[0] == 'ok') != (fresh_w[0] == 'ok'):
+                vio.append({'prop': PROP, 'kind': 'breach-not-raised' if second_w[0] == 'ok' else 'mode-leaked',
+                            'mech': f'repeated-write:{pattern}:' + ('accepted' if second_w[0] == 'ok' else 'refused'),
+                            'detail': f'{lab}: first write {first_w[:2]}, second write of the same DLISFile '
+                                      f'({"inside" if modes[1] else "outside"} the context) {second_w[:3]}, a freshly built one {fresh_w[:3]}'})
+            elif not modes[1] and second_w[0] == 'ok' and (second_warn > 0) != (fresh_warn > 0):
+                vio.append({'prop': PROP, 'kind': 'accepted-without-warning', 'mech': f'repeated-write:{pattern}:no-warning',
+                            'detail': f'{lab}: second write outside the context gave {second_warn} WARNING records, a freshly built file {fresh_warn}'})
+            if second_w[0] != 'ok':
+                bump('inside-raised')
+            elif second_warn:
+                bump('outside-warned')
+        else:
+            bump('repeated-write-build-rejected')
+        inside = None
     elif pattern in ('assign-after-leaving', 'created-outside-assigned-inside'):
         # the mode that counts is the one in force when a value is assigned, not the one in force when the object was made
         base = compliant_spec(r)
